@@ -49,6 +49,27 @@ def run(pm, ctx):
     ctx.rule("C12-c", "results must not depend on state left behind by earlier calls", floor=18)
     ctx.rule("C12-d", "all randomness must flow from check_random_state(random_state) of the current call", floor=10)
     ctx.rule("C12-e", "callers' arrays are never written", floor=30)
+    ctx.rule("C12-f", "a fit starts from the data it is given: input validation inside fit must reset what an earlier fit recorded (n_features_in_, "
+             "feature names), otherwise a re-fit on data of another width raises or reuses stale facts", floor=4)
+    n_val = 0
+    for ci in pm.estimators():
+        for mname, f in ci.methods.items():
+            if mname not in ("fit", "path", "fit_predict", "_fit"):
+                continue
+            for c in ast.walk(f):
+                if isinstance(c, ast.Call) and (call_name(c) or "").split(".")[-1] in ("validate_data", "_validate_data", "_check_n_features", "_check_feature_names"):
+                    n_val += 1
+                    rs = next((k.value for k in c.keywords if k.arg == "reset"), None)
+                    site = f"{ci.name}.{mname}: {norm_src(c)[:60]}"
+                    if rs is None or (isinstance(rs, ast.Constant) and rs.value is True):
+                        ctx.ok("C12-f", site, "reset (default)")
+                    elif isinstance(rs, ast.Constant) and rs.value is False:
+                        ctx.violation("C12-f", ci.unit.relpath, f"{ci.name}.{mname}", norm_src(c)[:120], "validation inside fit with reset=False compares the data with the feature count "
+                                      "recorded by an EARLIER fit: the same estimator re-fitted on data of another width raises, while a fresh clone fits", line=c.lineno, site=site)
+                    else:
+                        ctx.unrecognised("C12-f", site, f"reset={norm_src(rs)}")
+    if n_val == 0:
+        raise AnalysisError("anchor vanished: validation calls inside fit")
 
     # ------------------------------------------------------------------ a
     for ci in sorted(pm.classes.values(), key=lambda c: c.name):
@@ -682,4 +703,5 @@ def controls(pm, tier):
     mut(G, "normalised_kernel = affinity / N ** 2", "affinity /= N ** 2\n        normalised_kernel = affinity", "C12-e", "MMD normalises the caller's kernel in place")
     mut(K, "            kernel = y\n", "            kernel = y\n            kernel -= kernel.mean()\n", "C12-e", "Kauri centres the precomputed kernel in place")
     mut(L, "        self.input_data_ = X\n", "        self.input_data_ = X\n        X -= 0\n", "C12-e", "KernelRIM writes into X")
+    mut("gemclus.sparse._mlp_sparse", "        validate_data(self, X)\n", "        validate_data(self, X, reset=False)\n", "C12-f", "pre-check keeps the feature count of the previous fit")
     return out
